@@ -264,6 +264,58 @@ def const_grid():
     return out
 
 
+COMPOSE_LAYOUTS = [((0, 8), (8, 32)), ((0, 16), (16, 32)), ((0, 1), (1, 32)), ((0, 8), (8, 16), (16, 32)), ((0, 1), (1, 8), (8, 32)),
+                   ((0, 8), (8, 16)), ((0, 32), (32, 64)), ((0, 8), (8, 16), (16, 64)), ((0, 8), (8, 16), (16, 24), (24, 32))]
+SLOT_KINDS = ('int', 'cond-sym', 'id-const', 'id-sym', 'cond-const')
+
+
+def compose_cases():
+    """Deterministic (layout, kind per slot) grid: every combination of slot kinds for every layout."""
+    import itertools
+    out = []
+    for lay in COMPOSE_LAYOUTS:
+        kinds = SLOT_KINDS if len(lay) < 4 else ('int', 'cond-sym', 'id-const')
+        for ks in itertools.product(kinds, repeat=len(lay)):
+            out.append((lay, ks))
+    return out
+
+
+def build_compose(lay, ks, rng):
+    """ExprCompose whose slots are constants, identifiers bound to constants / left symbolic, conditionals with a symbolic or
+    constant condition and constant arms. Returns (expression, state)."""
+    ex, mi = exprgen.M()
+    args, state = [], {}
+    for n, ((a, b), k) in enumerate(zip(lay, ks)):
+        w0 = b - a
+        w = min(x for x in (1, 8, 16, 32, 64) if x >= w0)      # odd slot widths are filled with a slice of the next standard width
+
+        def const():
+            return rng.choice([v for v in exprgen.boundary(w) if v] or [1]) if rng.random() < 0.7 else (rng.getrandbits(w) or 1)
+        if k == 'int':
+            t = exprgen.Int(const(), w)
+        elif k in ('id-const', 'id-sym'):
+            t = ex.ExprId('k%d_%d' % (n, w), w)
+            if k == 'id-const':
+                state[t] = exprgen.Int(const(), w)
+        else:
+            c = ex.ExprId('c%d' % n, 1 if rng.random() < 0.5 else 32)
+            if k == 'cond-const':
+                state[c] = exprgen.Int(rng.choice((0, 1)), c.size)
+            arms = []
+            for j in range(2):
+                if rng.random() < 0.5:
+                    arms.append(exprgen.Int(const(), w))
+                else:
+                    i_ = ex.ExprId('m%d_%d_%d' % (n, j, w), w)
+                    state[i_] = exprgen.Int(const(), w)
+                    arms.append(i_)
+            t = ex.ExprCond(c, arms[0], arms[1])
+        if w != w0:
+            t = ex.ExprSlice(t, 0, w0)
+        args.append((t, a, b))
+    return ex.ExprCompose(args), state
+
+
 def operand_values(w, rng, k):
     vals = exprgen.boundary(w)
     rng.shuffle(vals)
@@ -276,6 +328,7 @@ def shards(tier, seed):
     n = 64 if tier == 'quick' else 1600
     out += [('rand', i) for i in range(n)]
     out += [('nary', i) for i in range(8 if tier == 'quick' else 64)]
+    out += [('compose', i) for i in range(0, len(compose_cases()), 64)]
     return out
 
 
@@ -305,6 +358,14 @@ def run_shard(shard, tier, seed):
         sh.sample({'operator': op, 'widths': widths, 'state': [hex(v) for v in combos[0]], 'result': _safe_str(e, dict((i_, exprgen.Int(v, i_.size)) for i_, v in zip(ids, combos[0])))}, 1)
         return sh
     rng = common.rng_for(seed, 'C06', shard[0], shard[1])
+    if shard[0] == 'compose':
+        for n, (lay, ks) in enumerate(compose_cases()[shard[1]:shard[1] + 64]):
+            for rep in range(3 if tier == 'quick' else 12):
+                e, state = build_compose(lay, ks, rng)
+                check_case(sh, e, state, (seed, 'c', shard[1], n, rep), 'compose', want_const=False)
+            if len(sh.samples) < 1:
+                sh.sample({'expression': str(e), 'state': sorted('%s=%s' % (k, v) for k, v in state.items()), 'result': _safe_str(e, state)})
+        return sh
     if shard[0] == 'nary':
         for i in range(150):
             w = rng.choice((8, 16, 32, 64))
